@@ -123,6 +123,40 @@ def det_check(tier, seed):
             for fs, n in ex.map(one, jobs):
                 findings += fs
                 executions += n
+        # converter: several dividends (with withholding) of different symbols on one date and several Cancel Sell rows
+        # without a matching sell: the DSL on stdout and the warnings on stderr are the same in every process, and rows
+        # of one date keep the order of the export (stable chronological sort)
+        syms = ['VTI', 'BND', 'AAPL', 'ZM', 'MSFT', 'GOOG']
+        rows = []
+        for k, sy in enumerate(syms):
+            rows.append({'Date': '06/30/2023', 'Action': 'Qualified Dividend' if k % 2 else 'Cash Dividend', 'Symbol': sy, 'Description': 'X', 'Quantity': '', 'Price': '', 'Fees & Comm': '', 'Amount': f'${10 + k}.50'})
+            rows.append({'Date': '06/30/2023', 'Action': 'NRA Tax Adj', 'Symbol': sy, 'Description': 'X', 'Quantity': '', 'Price': '', 'Fees & Comm': '', 'Amount': f'-$1.{k}0'})
+        for k, sy in enumerate(syms[:5]):
+            rows.append({'Date': '07/03/2023', 'Action': 'Cancel Sell', 'Symbol': sy, 'Description': 'X', 'Quantity': str(3 + k), 'Price': f'${20 + k}.00', 'Fees & Comm': '', 'Amount': ''})
+        rows.append({'Date': '03/01/2023', 'Action': 'Buy', 'Symbol': 'VTI', 'Description': 'X', 'Quantity': '10', 'Price': '$5.00', 'Fees & Comm': '$1.00', 'Amount': '-$51.00'})
+        export = json.dumps({'FromDate': '01/01/2023', 'ToDate': '12/31/2023', 'TotalTransactionsAmount': '$0', 'BrokerageTransactions': rows})
+        d2 = os.path.join(root, 'conv2')
+        os.makedirs(os.path.join(d2, 'home'))
+        open(os.path.join(d2, 'tx.json'), 'w').write(export)
+        outs2, errs2, first_out = set(), set(), None
+        for k in range(n_runs):
+            rc, so, se = run(d2, os.path.join(d2, 'home'), ['convert', 'schwab', 'tx.json'])
+            executions += 1
+            if rc != 0:
+                findings.append(finding('C16', 'run_failed', f'convert schwab failed (exit {rc}): {se[-200:]!r}', export, 0))
+                break
+            so = re.sub(rb'# Converted: [^\n]*', b'# Converted: <t>', so)
+            outs2.add(so)
+            errs2.add(se)
+            first_out = first_out or so
+        if len(outs2) > 1:
+            findings.append(finding('C16', 'output_varies', f'convert schwab: {len(outs2)} different outputs in {n_runs} runs (several dividends of different symbols on one date)', export, 0))
+        if len(errs2) > 1:
+            findings.append(finding('C16', 'output_varies', f'convert schwab: the warnings on standard error come in {len(errs2)} different orders in {n_runs} runs (several unmatched Cancel Sell rows)', export, 0))
+        if first_out:
+            got = re.findall(r'^2023-06-30 DIVIDEND (\S+)', first_out.decode(errors='replace'), re.M)
+            if got != syms:
+                findings.append(finding('C16', 'converter_order', f'dividends of one date are listed {got}, the export has them in the order {syms}', export, 0))
         # converter output is deterministic apart from its timestamp line
         d = os.path.join(root, 'conv')
         os.makedirs(os.path.join(d, 'home'))
